@@ -542,6 +542,8 @@ pub enum MOp {
     UnregSig(i32),
     /// register a forbidden signal (panics), caught by the harness
     RegForbidden,
+    /// registration through register_sigaction (the action gets the siginfo)
+    RegInfo(i32, u64),
     /// registration through the unchecked entry point (the only way to hook SIGFPE / SIGILL / SIGSEGV)
     RegUnchecked(i32, u64),
     /// a refused unchecked registration whose action owns a guard that unregisters action `tag` when it is
@@ -600,6 +602,22 @@ fn run_mops(s: &RS, ops: &[MOp], pause: bool) {
                 sched::log("regforbidden_call", 0, 0);
                 let r = std::panic::catch_unwind(|| unsafe { reg::register(libc::SIGKILL, || ()) });
                 sched::log("regforbidden_ret", r.is_err() as u64, 0);
+            }
+            MOp::RegInfo(sig, tag) => {
+                sched::log("reg_call", *tag, *sig as u64);
+                let act = make_action(*tag, pause);
+                let want = *sig;
+                let id = unsafe {
+                    reg::register_sigaction(*sig, move |info| {
+                        if info.si_signo != want {
+                            sched::log("bad_siginfo", info.si_signo as u64, want as u64);
+                        }
+                        act()
+                    })
+                }
+                .expect("register_sigaction");
+                s.ids.lock().unwrap().insert(*tag, id);
+                sched::log("reg_ret", *tag, *sig as u64);
             }
             MOp::RegUnchecked(sig, tag) => {
                 sched::log("reg_call", *tag, *sig as u64);
@@ -1487,6 +1505,12 @@ pub fn scenarios(prop: &str, tier: Tier) -> Vec<Item> {
                 v.push(item(build_reg(p), Some(2), "two mutators on two signals, deliveries of both from two threads"));
             }
             v.push(item(build_reg_endurance("snapshot_delivery_off_cpu_endurance", "C02", 1_600_000), Some(0), "a delivery stalled (off the processor) inside an earlier action while a later action is removed: no action runs whose removal had returned; one forced schedule, 1.6 million barrier rounds"));
+            let mut p = rp("snapshot_mixed_entry_points", "C02");
+            p.pre = vec![RegInfo(S1, 1), Reg(S1, 2), RegInfo(S1, 3)];
+            p.mutators = vec![vec![Reg(S1, 4), RegInfo(S1, 5), Unreg(2)]];
+            p.deliverers = vec![vec![S1, S1]];
+            p.nest = vec![S1];
+            v.push(item(build_reg(p), b(2, 3), "actions registered alternately through register and register_sigaction on one signal: they run in registration order whatever the entry point"));
             let mut p = rp("snapshot_unregister_signal_of_three", "C02");
             p.pre = vec![Reg(S1, 1), Reg(S1, 2), Reg(S1, 3)];
             p.mutators = vec![vec![UnregSig(S1), Reg(S1, 4)]];
@@ -1546,6 +1570,12 @@ pub fn scenarios(prop: &str, tier: Tier) -> Vec<Item> {
                 p.nest = vec![libc::SIGURG];
                 v.push(item(build_reg(p), b(2, 3), "taken over from a handler installed with SA_RESETHAND|SA_NODEFER(|SA_ONSTACK): it is chained in every one of three deliveries and the library's handler stays installed without those flags"));
             }
+            let mut p = rp("chain_first_registrations_vs_unrelated_unregister", "C04");
+            p.disps = vec![(S1, Disp::Plain), (S2, Disp::Plain), (libc::SIGURG, Disp::Plain)];
+            p.pre = vec![Reg(S1, 1), Reg(S1, 2)];
+            p.mutators = vec![vec![Unreg(1)], vec![Reg(S2, 5), Reg(libc::SIGURG, 7)]];
+            p.deliverers = vec![vec![S2, S2]];
+            v.push(item(build_reg(p), b(2, 3), "an unrelated unregister on one thread while another makes two first registrations (the second overwrites the fallback): the first signal's pre-existing handler keeps being chained"));
             let mut p = rp("chain_foreign_sigaction_during_first_registration", "C04");
             p.disps = vec![(S1, Disp::Plain), (S2, Disp::Plain)];
             p.mutators = vec![vec![Reg(S1, 1)]];
